@@ -32,6 +32,8 @@ func main() {
 		cmdGenesis(os.Args[2:])
 	case "selection":
 		cmdSelection(os.Args[2:])
+	case "replica":
+		cmdReplica(os.Args[2:])
 	case "version":
 		fmt.Println("saoharness 1")
 	default:
@@ -82,6 +84,36 @@ func authProfile() chain.Profile {
 	return p
 }
 
+// rewardProfile: block rewards are minted (see cfgFor); capacity is added, removed and claimed
+// on varying schedules, a provider joins late.
+func rewardProfile() chain.Profile {
+	p := payProfile()
+	p.Name = "reward"
+	p.Nodes = []string{"a01", "a02", "a03"}
+	p.LateNodes = []string{"a05"}
+	p.Weights = map[string]int{"Blocks": 30, "StoreNew": 4, "Complete": 10, "Claim": 18, "AddVstorage": 14, "RemoveVstorage": 12,
+		"Terminate": 1, "Renew": 2, "Migrate": 2, "CreateLate": 4, "Reset": 2}
+	p.Caps = []int64{1000000, 1000000, 2000000, 999999, 1000001}
+	p.Sizes = []int64{1000, 10000}
+	p.Durs = []int64{3600}
+	p.Timeouts = []int64{20, 1800}
+	p.MaxData = 2
+	p.ShortBlocks = true
+	return p
+}
+
+// cfgFor returns the config overrides a profile needs (trace i of the batch).
+func cfgFor(profile string, i int) map[string]interface{} {
+	if profile == "reward" {
+		if i%3 == 2 {
+			// below the baseline: the per-block reward is capped by pledged * apy / (halving/2)
+			return map[string]interface{}{"blockReward": 840, "baseline": 1000, "apy": "600", "halvingPeriod": 20}
+		}
+		return map[string]interface{}{"blockReward": 840, "baseline": 0}
+	}
+	return nil
+}
+
 func profileByName(n string) chain.Profile {
 	switch n {
 	case "pay":
@@ -90,6 +122,8 @@ func profileByName(n string) chain.Profile {
 		return lifeProfile()
 	case "auth":
 		return authProfile()
+	case "reward":
+		return rewardProfile()
 	}
 	die("unknown profile %s", n)
 	return chain.Profile{}
@@ -109,6 +143,10 @@ func cmdDrive(args []string) {
 	halted := 0
 	for i := 0; i < *traces; i++ {
 		cfg := loadCfg(*cfgJSON)
+		if ov := cfgFor(*prof, i); ov != nil {
+			b, _ := json.Marshal(ov)
+			json.Unmarshal(b, &cfg)
+		}
 		s := *seed*1000 + int64(i)
 		cfg.Salt = s%997 + 1
 		c, err := chain.New(cfg)
@@ -295,4 +333,123 @@ func cmdSelection(args []string) {
 		die("%v", err)
 	}
 	fmt.Printf("DONE cases=%d hangs=%d\n", cases, hangs)
+}
+
+// ---------------------------------------------------------------------------
+// replica: run a script of ABCI-level steps on an on-disk replica.
+type Step struct {
+	Op  string        `json:"op"` // block | blocks | restart | checktx | simulate | sleep | export | state
+	Txs []chain.Event `json:"txs"`
+	Tx  chain.Event   `json:"tx"`
+	N   int64         `json:"n"`
+	Ms  int64         `json:"ms"`
+	To  string        `json:"to"`
+}
+
+type StepOut struct {
+	Step   int              `json:"step"`
+	Op     string           `json:"op"`
+	Block  *chain.BlockOut  `json:"block,omitempty"`
+	Blocks []chain.BlockOut `json:"blocks,omitempty"`
+	State  *chain.State     `json:"state,omitempty"`
+	Note   string           `json:"note,omitempty"`
+}
+
+func cmdReplica(args []string) {
+	fs := flag.NewFlagSet("replica", flag.ExitOnError)
+	dir := fs.String("dir", "", "database directory")
+	script := fs.String("script", "", "script (JSON array of steps)")
+	from := fs.Int("from", 0, "first step to execute")
+	mode := fs.String("mode", "full", "full | plain (plain ignores restart/checktx/simulate/sleep)")
+	cfgJSON := fs.String("cfg", "", "config overrides (JSON)")
+	genesis := fs.String("genesis", "", "exported app state to initialise from (fresh dir only)")
+	initial := fs.Int64("initial-height", 0, "initial height when starting from an exported genesis")
+	out := fs.String("out", "", "append ndjson results here (default stdout)")
+	fs.Parse(args)
+	raw, err := os.ReadFile(*script)
+	if err != nil {
+		die("%v", err)
+	}
+	var steps []Step
+	if err := json.Unmarshal(raw, &steps); err != nil {
+		die("bad script: %v", err)
+	}
+	var gen []byte
+	if *genesis != "" {
+		if gen, err = os.ReadFile(*genesis); err != nil {
+			die("%v", err)
+		}
+	}
+	r, err := chain.OpenReplica(loadCfg(*cfgJSON), *dir, gen, *initial)
+	if err != nil {
+		die("open replica: %v", err)
+	}
+	w := os.Stdout
+	if *out != "" {
+		if w, err = os.OpenFile(*out, os.O_APPEND|os.O_CREATE|os.O_WRONLY, 0o644); err != nil {
+			die("%v", err)
+		}
+	}
+	emit := func(o StepOut) {
+		b, _ := json.Marshal(o)
+		w.Write(append(b, '\n'))
+	}
+	for i := *from; i < len(steps); i++ {
+		st := steps[i]
+		switch st.Op {
+		case "block":
+			bo, err := r.Block(st.Txs)
+			if err != nil {
+				emit(StepOut{Step: i, Op: "halt", Block: &bo, Note: err.Error()})
+				r.Close()
+				os.Exit(4)
+			}
+			emit(StepOut{Step: i, Op: "block", Block: &bo})
+		case "blocks":
+			var last chain.BlockOut
+			for k := int64(0); k < st.N; k++ {
+				bo, err := r.Block(nil)
+				if err != nil {
+					emit(StepOut{Step: i, Op: "halt", Block: &bo, Note: err.Error()})
+					r.Close()
+					os.Exit(4)
+				}
+				last = bo
+			}
+			emit(StepOut{Step: i, Op: "blocks", Block: &last})
+		case "state":
+			s := r.ProjectCommitted()
+			emit(StepOut{Step: i, Op: "state", State: &s})
+		case "export":
+			b, err := r.Export()
+			if err != nil {
+				emit(StepOut{Step: i, Op: "export", Note: "export failed: " + err.Error()})
+				r.Close()
+				os.Exit(5)
+			}
+			os.WriteFile(st.To, b, 0o644)
+			s := r.ProjectCommitted()
+			emit(StepOut{Step: i, Op: "export", State: &s, Note: fmt.Sprintf("height=%d", r.App.LastBlockHeight())})
+		case "restart":
+			if *mode == "full" {
+				emit(StepOut{Step: i, Op: "restart"})
+				r.Close()
+				os.Exit(10)
+			}
+		case "checktx":
+			if *mode == "full" {
+				code := r.CheckTx(st.Tx)
+				emit(StepOut{Step: i, Op: "checktx", Note: fmt.Sprint(code)})
+			}
+		case "simulate":
+			if *mode == "full" {
+				emit(StepOut{Step: i, Op: "simulate", Note: r.Simulate(st.Tx)})
+			}
+		case "sleep":
+			if *mode == "full" {
+				time.Sleep(time.Duration(st.Ms) * time.Millisecond)
+			}
+		}
+	}
+	r.Close()
 }
